@@ -286,7 +286,17 @@ def id_allocation_tier(ck, tier):
 def run(tier):
     ck = vlib.Check(PID, tier)
     vlib.build_harness(["sctp", "dcids"])
-    n_id_programs = id_allocation_tier(ck, tier)
+    # the PeerConnection-level tier is independent of the association runs: it goes on in a thread meanwhile
+    import threading
+    idbox = {}
+
+    def id_job():
+        try:
+            idbox["n"] = id_allocation_tier(ck, tier)
+        except Exception as e:
+            idbox["err"] = e
+    id_thread = threading.Thread(target=id_job)
+    id_thread.start()
     design_checks(ck, tier)
     singles, pairs, frag, gen_finished = generate(ck, tier)
     scen = build_scenarios(singles, pairs, frag, tier)
@@ -295,6 +305,10 @@ def run(tier):
     by_id = sc.run_scenarios(ck, scen, "main", nproc=8 if tier == "quick" else 12, timeout=3000)
     bad, ext, nev, res = sc.validate(ck, PID, scen, by_id, "main", timeout=2400)
     ck.add_tlc(res, "trace validation")
+    id_thread.join()
+    if "err" in idbox:
+        raise idbox["err"]
+    n_id_programs = idbox["n"]
     sc.record_results(ck, PID, scen, by_id, bad, ext)
     applied = set()
     for s in scen:
@@ -356,6 +370,16 @@ def selftest():
     ok2 = ok2 and ok3
     print("selftest: SetupOverwrite model violates OpenOnce:", ok1)
     print("selftest: DataBeforeEstablished model violates OpenBeforeMessage:", ok2)
+    cfgp = os.path.join(vlib.SPEC, f"MC_DcIds_selftest.{os.getpid()}.gen.cfg")
+    with open(os.path.join(vlib.SPEC, "MC_DcIds.cfg")) as f:
+        txt = f.read().replace("Deviations = {}", 'Deviations = {"SinglePassSearch"}').replace(" EmitProgram", "")
+    with open(cfgp, "w") as f:
+        f.write(txt)
+    r4 = vlib.tlc("MC_DcIds", os.path.basename(cfgp), timeout=300, workers=4, tag=f"MC_DcIds_selftest_{os.getpid()}")
+    os.remove(cfgp)
+    ok4 = any("UniqueLive" in e for e in r4["errors"])
+    print("selftest: SinglePassSearch id allocation violates UniqueLive:", ok4)
+    ok2 = ok2 and ok4
     rng = random.Random(1)
     chans, msgs = wl_types(rng)
     s = sc.scenario("types", [], chans, msgs)
